@@ -54,9 +54,29 @@ def _strip_comments(text: str) -> str:
     return "".join(out)
 
 
-def forbidden_tokens() -> list[str]:
+def import_closure(modules: list[str]) -> list[Path]:
+    """The .lean files of this project that the given modules import, transitively."""
+    seen, todo = {}, list(modules) + ["Driver"]
+    while todo:
+        m = todo.pop()
+        if m in seen:
+            continue
+        path = LEAN / (m.replace(".", "/") + ".lean")
+        if not path.exists():
+            continue
+        seen[m] = path
+        for line in path.read_text().splitlines():
+            mm = re.match(r"\s*(?:public\s+)?import\s+((?:GridVerif|Driver)[\w.]*)", line)
+            if mm:
+                todo.append(mm.group(1))
+    return sorted(seen.values())
+
+
+def forbidden_tokens(modules: list[str] | None = None) -> list[str]:
+    """Forbidden tokens in the Lean files the property's modules (and the driver) are built from."""
     hits = []
-    for p in sorted((LEAN / "GridVerif").rglob("*.lean")) + [LEAN / "Driver.lean"]:
+    files = import_closure(modules) if modules else sorted((LEAN / "GridVerif").rglob("*.lean")) + [LEAN / "Driver.lean"]
+    for p in files:
         body = _strip_comments(p.read_text())
         # string literals may legitimately contain words; drop them
         body = re.sub(r'"(?:[^"\\]|\\.)*"', '""', body)
@@ -141,7 +161,7 @@ def lean_build_and_audit(pid: str, modules: list[str], theorems: list[str], thor
         axioms[m.group(1)] = {a.strip() for a in m.group(2).split(",") if a.strip()}
     for m in re.finditer(r"'([^']+)' does not depend on any axioms", flat):
         axioms[m.group(1)] = set()
-    hits = forbidden_tokens()
+    hits = forbidden_tokens(modules)
     for t in theorems:
         # `#print axioms` prints the fully-qualified name; accept suffix match
         key = next((k for k in axioms if k == t or k.endswith("." + t) or t.endswith("." + k)), None)
